@@ -26,6 +26,7 @@ from hypothesis import strategies as st
 
 from .. import boot
 from ..common import meta, eqnan, chunk_bytes, quiet
+from ..runner import load_known
 
 import dclab
 from dclab import PolygonFilter, RTDCWriter
@@ -59,6 +60,10 @@ ASSUMPTIONS = [
     "ancillary features (area_um, time, emodulus) are compared with the root's own values "
     "read at check time (their correctness is C06)",
     "version shim: dclab._version pre-seeded with 0.62.7 so that written files re-open"]
+
+MAX_ROUNDS = 3
+TIMEOUT = {"quick": 2400, "thorough": 8 * 3600}
+KNOWN = {f["signature"] for f in load_known(ID)}
 
 MAXDEPTH = 4
 SAMEARR = "parent-events-replaced-same-filter-array"
@@ -178,7 +183,7 @@ def st_spec(draw):
         "seed": draw(st.integers(0, 2**16)),
         "deform": draw(st.lists(DVAL, min_size=n, max_size=n)),
         "depth": draw(st.sampled_from([1, 2, 2, 3, 3, 4])),
-        "emod": draw(st.sampled_from([False, False, True])),
+        "emod": draw(st.sampled_from([False, False, False, False, True])),
         "ops": [op for ch in draw(st.lists(
             st_chunk(n), min_size=draw(st.sampled_from([1, 5, 10, 15])), max_size=28))
             for op in ch][:40],
@@ -663,11 +668,11 @@ class Sim:
         for f in feats:
             if f in ("index",) or (f not in exp and f not in ("contour", "trace")):
                 continue
-            if f not in ds:
-                rec.fail(f"feature/missing/{self.fkind(f)}/{h}",
+            fk = self.fkind(f)
+            if f in ("contour", "trace") and f not in ds:
+                rec.fail(f"feature/missing/{fk}/{h}",
                          f"level {L}: '{f}' in root but not in child")
                 continue
-            fk = self.fkind(f)
             if f == "contour":
                 obj = ds["contour"]
                 rec.check(len(obj) == m, f"feature/len/contour/{h}", "")
@@ -695,6 +700,10 @@ class Sim:
             e = exp[f][v]
             try:
                 obj = ds[f]
+            except KeyError:
+                rec.fail(f"feature/missing/{fk}/{h}",
+                         f"level {L}: '{f}' in root but not in child")
+                continue
             except IndexError as exc:
                 # child.hparent[f].shape reads event 0 of level L-2
                 empty_anc = L >= 3 and len(self.lv[L - 2].view) == 0
@@ -1011,6 +1020,10 @@ def run_case(spec, rec):
                 if sim.dead:
                     break
                 sim.op(op)
+                if any(sig not in KNOWN for sig, _ in rec.failures):
+                    # a new violation is on record: the rest of the history adds nothing
+                    # to it (keeps shrinking cheap); known findings never stop a case
+                    sim.dead = True
             if not sim.dead:
                 sim.refresh(sim.D)
             rec.cls(f"depth:{sim.D}")
